@@ -307,3 +307,31 @@ Theorem C12_pipeline_tree_nonvacuous :
              (map (the_line a fx_state) [0; 2; 1]%nat) (initial a) = (fx_state, true) /\
   tree_apply_line no_hash_search one_id fx_tree (the_line a fx_state 1) (initial a) = None.
 Proof. exact pipeline_tree_nonvacuous. Qed.
+
+(* ======================================================================== *)
+(* Stage 5: C12_eq_stage with the 'a'-header array form                        *)
+(* ======================================================================== *)
+(* For a "name#N" port the two lists get_changed_values compares are ARRAYS: slot 0 is the
+   header (type 'a', element type, number of slots), the elements follow.  By C16's theorem
+   (the Arr node): equal iff the element types are of one class (T and F form one) and the
+   elements compare equal one by one ([same_value], C's == on floats).  No NaN
+   ([value_comparable]) as in C12_eq_stage. *)
+Theorem C12_eq_stage_array : forall F hu hw u w, value_comparable u -> value_comparable w ->
+  AvModel.vals_eq F (enc_array hu u) (enc_array hw w) (Zlength (enc_array hu u)) (Zlength (enc_array hw w))
+    = Some ((AvModel.arr_class hu =? AvModel.arr_class hw) && same_value u w) /\
+  av_eq_array F hu hw u w = ((AvModel.arr_class hu =? AvModel.arr_class hw) && same_value u w).
+Proof. exact eq_stage_array. Qed.
+
+(* so with element types of one class the header form gives the answer of the element-sequence
+   form the pipeline theorems use *)
+Theorem C12_eq_stage_array_same : forall F hu hw u w,
+  AvModel.arr_class hu = AvModel.arr_class hw -> value_comparable u -> value_comparable w ->
+  av_eq_array F hu hw u w = av_eq_real F u w.
+Proof. exact eq_stage_array_same. Qed.
+
+Theorem C12_eq_stage_array_nonvacuous : forall F,
+  av_eq_array F 105 105 [VI 1; VI 5; VI 1] [VI 1; VI 1; VI 1] = false /\
+  av_eq_array F 105 105 [VI 1; VI 5; VI 1] [VI 1; VI 5; VI 1] = true /\
+  av_eq_array F 84 70 [VT true; VT false] [VT true; VT false] = true /\
+  av_eq_array F 105 102 [] [] = false.
+Proof. exact eq_stage_array_nonvacuous. Qed.
